@@ -101,6 +101,15 @@ def check(rep, tier):
                    "2D: one-step correspondence with the in-place sweep model model/Sn2D.v; cooling-stage max principle proved for that sweep, its hypotheses evaluated on every 2D run (counts inside/outside-stability 2D)"]
     recs = sr.catalogue(rng, tier, n0=3, n1=3 if tier == "quick" else 9, n2=1 if tier == "quick" else 5)
     recs += sr.catalogue(rng, tier, dims=("homogeneous", "spatial_1D"), cn=True, n0=1, n1=1)
+    # 0D with a controlled-nucleation temperature close to the freezing point and a weak shelf contact: the product lags several K behind the shelf
+    try:
+        progC = dict(start=10, end=-50, rate=1.0 / 60, holds=[], t_tot=4 * 3600.0, dt=1.0)
+        SC = sr.make(dim="homogeneous", conf="shelf", height=0.01, diameter=0.01, K=20, prog=progC, cnTemp=-3.0)
+        recC = dict(label="homogeneous/shelf K=20 1 K/min cn=-3 (product lags behind the shelf)", dim="homogeneous", conf="shelf", S=SC, dt=0.1, prog=progC, cnTemp=-3.0, error=None)
+        sr.run(SC)
+    except Exception as e:
+        recC["error"] = e
+    recs.append(recC)
     recs += sr.catalogue(rng, tier, dims=("spatial_1D",), confs=["shelf"], n1=1 if tier == "quick" else 3, wide_depression=True)
     recs += sr.catalogue(rng, tier, dims=("spatial_1D",) if tier == "quick" else ("homogeneous", "spatial_1D", "spatial_2D"), confs=["shelf"], n0=1, n1=1, n2=1, repoint=True)
     # a study of several repetitions on ONE object (sequential): the reported trajectory is the last repetition's
